@@ -5,12 +5,12 @@ tier=${1:-quick}
 cd /verif || exit 2
 git -C /repo diff --quiet || { echo "/repo not clean"; exit 2; }
 for d in seeded/C*; do
-  id=$(basename $d)
+  sid=$(basename $d); id=$(echo $sid | cut -c1-3)
   p=$d/patch.diff; [ -f $d/patch.current.diff ] && p=$d/patch.current.diff
-  if ! git -C /repo apply --check /verif/$p 2>/dev/null; then echo "$id DOES-NOT-APPLY $p"; continue; fi
+  if ! git -C /repo apply --check /verif/$p 2>/dev/null; then echo "$sid DOES-NOT-APPLY $p"; continue; fi
   git -C /repo apply /verif/$p
   start=$(date +%s)
   out=$(./check $id --tier $tier 2>&1); rc=$?
   git -C /repo checkout -- . ; git -C /repo clean -fdq
-  echo "$id rc=$rc $(($(date +%s)-start))s $(echo "$out" | grep -m1 VIOLATION)"
+  echo "$sid rc=$rc $(($(date +%s)-start))s $(echo "$out" | grep -m1 VIOLATION)"
 done
